@@ -2,9 +2,13 @@
 package c01
 
 import (
+	"math/rand"
+	"sort"
 	"testing"
 	"time"
 
+	"verif/harness/gen"
+	"verif/harness/model"
 	"verif/harness/oracle"
 	"verif/harness/scen"
 	"verif/harness/sysrun"
@@ -44,4 +48,32 @@ func TestReloads(t *testing.T) {
 	sub := vf.Cur().Sub("reloads-restarts", sprintf(rule, "config reloads (same/new tree, rejected files), restarts with and without data directory, silences, faults"), 20)
 	sysrun.Run(t, "C01", sub, sysrun.Family{Name: "reload", Quick: 120, Thorough: 6000, NonTrivial: nt,
 		Opt: scen.GenOpt{Horizon: 2 * time.Hour, Depth: 2, Fanout: 3, Silences: true, Faults: true, Reloads: true, Restarts: true, Probes: true}}, checkers)
+}
+
+// startRace: the dispatcher starts flushing only after a start-up delay; alerts are submitted
+// around that instant while ingestion is held at the yield points between "load group" and
+// "store group", so that the start-up sweep and the creation of a group interleave.
+func startRace(r *rand.Rand) *scen.Scenario {
+	s := scen.Generate(r, scen.GenOpt{Horizon: 30 * time.Minute, Depth: 1, Fanout: 2, ShortTimers: true, MaxLabelSets: 4})
+	delay := gen.Pick(r, []time.Duration{5 * time.Second, 10 * time.Second, 30 * time.Second})
+	s.DispatchStartDelay = delay
+	s.Yields = []scen.YieldRule{{Point: "group.beforeStore", Sleep: gen.Pick(r, []time.Duration{2 * time.Millisecond, 5 * time.Millisecond}), Prob: 0.8},
+		{Point: "group.afterLoad", Sleep: 2 * time.Millisecond, Prob: 0.3}, {Point: "worker.recv", Sleep: time.Millisecond, Prob: 0.3}}
+	far := 25 * time.Minute
+	for i, l := range gen.LabelSets(r, 3) {
+		off := gen.Pick(r, []time.Duration{-4 * time.Millisecond, -2 * time.Millisecond, -time.Millisecond, time.Millisecond}) - time.Duration(i)*time.Millisecond
+		s.Ops = append(s.Ops, scen.Op{At: delay + off, Kind: "alerts", Alerts: []scen.PostSpec{{Labels: l, EndOff: &far, Ann: model.Labels{"v": "start-race"}}}})
+	}
+	sort.SliceStable(s.Ops, func(i, j int) bool { return s.Ops[i].At < s.Ops[j].At })
+	for i := 1; i < len(s.Ops); i++ {
+		if s.Ops[i].At <= s.Ops[i-1].At {
+			s.Ops[i].At = s.Ops[i-1].At + time.Millisecond
+		}
+	}
+	return s
+}
+
+func TestStartRace(t *testing.T) {
+	sub := vf.Cur().Sub("start-race", sprintf(rule, "targeted, with yield hooks: dispatcher start-up delay of 5-30 s, alerts submitted within a few ms of the start instant while group creation is held between its steps"), 20)
+	sysrun.Run(t, "C01", sub, sysrun.Family{Name: "start", Quick: 100, Thorough: 4000, NonTrivial: nt, Gen: startRace}, checkers)
 }
